@@ -46,6 +46,17 @@ pub fn leaf_edits(v: &Value, r: &mut Rng) -> Vec<(String, Value)> {
                     }
                     variants.push(Value::String(s.to_uppercase()));
                 }
+                // the same length counted in characters, or in bytes, with a non-ASCII character inside
+                if cs.len() >= 2 && s.is_ascii() {
+                    let mut same_chars = cs.clone();
+                    let n = same_chars.len();
+                    same_chars[n - 1] = '\u{e9}';
+                    variants.push(Value::String(same_chars.iter().collect()));
+                    let mut same_bytes = cs[..n - 2].to_vec();
+                    same_bytes.push('\u{e9}');
+                    variants.push(Value::String(same_bytes.iter().collect()));
+                    variants.push(Value::String("\u{e9}".repeat(n / 2)));
+                }
                 for v in [format!(" {}", s), format!("{} ", s), format!("{}/", s), format!("./{}", s), format!("{}\u{0}", s), format!("\u{feff}{}", s)] {
                     variants.push(Value::String(v));
                 }
